@@ -1,4 +1,5 @@
 import PK.Properties.C09
+import PK.Properties.C09Twin
 #print axioms PK.canWinNow_autos
 #print axioms PK.C09_ops_ignore_automation
 #print axioms PK.C09_queries_ignore_automation
@@ -15,3 +16,12 @@ import PK.Properties.C09
 #print axioms PK.C09_update_deal
 #print axioms PK.C09_update_show
 #print axioms PK.C09_update_push
+#print axioms PK.step_uniform
+#print axioms PK.step_autos
+#print axioms PK.upd_twin
+#print axioms PK.kstep_shape
+#print axioms PK.pushes_inert
+#print axioms PK.drain
+#print axioms PK.C09_twin
+#print axioms PK.C09_twin_quiescent
+#print axioms PK.C09_same_log
